@@ -3,6 +3,7 @@ package work
 import (
 	"encoding/hex"
 	"fmt"
+	"strings"
 
 	"github.com/gabriel-vasile/mimetype/internal/verifsim/core"
 	"github.com/gabriel-vasile/mimetype/internal/verifsim/inputs"
@@ -308,6 +309,28 @@ func (g *extGen) ext() *model.Ext {
 			}
 		}
 	}
+	if g.collideOn && !twin && dupOf == nil && !g.dupName[e.Mime] && g.r.Chance(1, 5) {
+		// a type written in a non-canonical way (upper case, a parameter, white space),
+		// of its own or of another format: a different string, hence a different name for
+		// Lookup, although Is() treats the spellings alike
+		base := e.Mime
+		if g.r.Chance(1, 2) {
+			if len(g.twinnable) > 0 && g.r.Chance(1, 2) {
+				base = g.twinnable[g.r.Intn(len(g.twinnable))].Mime
+			} else if len(g.builtinDup) > 0 {
+				base = g.builtinDup[g.r.Intn(len(g.builtinDup))]
+			}
+		}
+		switch g.r.Intn(3) {
+		case 0:
+			e.Mime = strings.ToUpper(base[:1]) + base[1:]
+		case 1:
+			e.Mime = fmt.Sprintf("%s; v=%d", base, id)
+		default:
+			e.Mime = " " + base
+		}
+		g.ambiguous[e.Mime] = true
+	}
 	e.Pred = g.pred(target)
 	if dupOf != nil {
 		e.Aliases = append([]string(nil), dupOf.Aliases...)
@@ -384,9 +407,10 @@ func randDelivery(r *core.Rand, n int, faultChance int) *simio.Delivery {
 	if faultChance > 0 && r.Chance(faultChance, 100) {
 		d.FaultAt = r.Range(0, n)
 		d.FaultWithData = r.Chance(1, 2)
-		if r.Chance(1, 4) {
-			d.ErrWraps = 1 + r.Intn(2)
+		if r.Chance(1, 3) {
+			d.ErrWraps = 1 + r.Intn(7)
 		}
+		d.Recover = r.Chance(1, 4)
 	}
 	return d
 }
